@@ -66,7 +66,23 @@ class SqliteImpl(SqlImpl):
 
     @classmethod
     def fix_fn_types(cls, fn: ColFn, val: sqa.ColumnElement, *args: sqa.ColumnElement) -> sqa.ColumnElement:
-        if fn.op in (ops.horizontal_min, ops.horizontal_max, ops.mean, ops.min, ops.max) and fn.dtype().is_float():
+        # These hand one of their arguments through: an integer argument (column or literal) of a Float expression would keep
+        # its INTEGER storage class (and e.g. be printed without decimal point by a cast to String).
+        if (
+            fn.op
+            in (
+                ops.horizontal_min,
+                ops.horizontal_max,
+                ops.mean,
+                ops.min,
+                ops.max,
+                ops.fill_null,
+                ops.coalesce,
+                ops.clip,
+                ops.shift,
+            )
+            and fn.dtype().is_float()
+        ):
             return sqa.cast(val, sqa.Double)
         return val
 
